@@ -7,7 +7,7 @@ from vlib import tsim
 PROPERTY = "C13"
 RULE = ("threads 1-3 x worker_connections 1-5 x keepalive {0,1,2} x schedule of up to 40 events {client connects, client sends a full "
         "keep-alive request / a Connection: close request / a partial request / the rest of it / two pipelined requests, a queued handler "
-        "runs to completion, virtual time +0.5/+1/+3 s, client disconnects, worker told to stop}, one event per yield point "
+        "runs to completion after 0-2.5 s of application time, virtual time +0.5/+1/+3 s, client disconnects, worker told to stop}, one event per yield point "
         "(poller.select / futures.wait) of the real ThreadWorker.run() driven with a scripted poller, listener, sockets and executor; "
         "connection-set model checked at every yield point: open <= worker_connections, nr_conns == open connections, no close while a "
         "handler is queued/running, idle keep-alive connections closed at the first scan after their deadline and never before, a "
@@ -18,7 +18,8 @@ ASSUMPTIONS = [
     "handlers run atomically at yield points, and only when their connection holds a complete request or EOF; the one modelled "
     "cross-thread interleaving is the loop thread overtaking a pool thread that registers a connection without holding the worker's lock",
     "bytecode-level races between pool threads and the main loop (nr_conns -= 1 is not atomic) are outside this simulation",
-    "virtual time: keep-alive deadlines are compared with the clock value of the last murder_keepalived() scan",
+    "virtual time: the model's keep-alive deadline is (instant the connection went idle) + keepalive; it is compared with the clock value of "
+    "the last murder_keepalived() scan",
 ]
 BUDGET = {"quick": (16, 500), "thorough": (16, 60000)}
 
@@ -29,7 +30,7 @@ event = st.one_of(
     st.tuples(st.sampled_from(["send_ka", "send_close"]), st.integers(0, 5)),
     st.tuples(st.just("finish_partial")),
     st.tuples(st.just("handler"), st.integers(0, 3)),
-    st.tuples(st.just("handler"), st.integers(0, 3)),
+    st.tuples(st.just("handler"), st.integers(0, 3), st.sampled_from([0, 0.5, 1.5, 2.5])),      # the application takes this long
     st.tuples(st.just("handler_late_data"), st.integers(0, 3)),
     st.tuples(st.just("time"), st.sampled_from([0.5, 1.0, 3.0])),
     st.tuples(st.just("disconnect"), st.integers(0, 5)),
@@ -39,9 +40,10 @@ event = st.one_of(
 scene = st.one_of(
     # one keep-alive exchange, possibly followed by a pause (expiry) or another request on the same connection
     st.tuples(st.integers(0, 5), st.sampled_from(["send_ka", "send_ka", "send_close", "send_two", "send_partial"]),
-              st.sampled_from([0.5, 1.0, 3.0]), st.booleans()).map(
+              st.sampled_from([0.5, 1.0, 3.0]), st.booleans(), st.sampled_from([0, 0, 0.5, 1.5, 2.5])).map(
         lambda t: [["connect"], ["time", 0.5], [t[1], t[0]]] + ([["finish_partial"]] if t[1] == "send_partial" else []) +
-                  [["handler_late_data" if t[0] % 2 else "handler", 0], ["time", t[2]]] + ([["send_ka", t[0]], ["handler", 0], ["time", 0.5]] if t[3] else [])),
+                  [["handler_late_data", 0] if t[0] % 2 else ["handler", 0, t[4]], ["time", t[2]]] +
+                  ([["send_ka", t[0]], ["handler", 0], ["time", 0.5]] if t[3] else [])),
     st.tuples(st.integers(0, 5)).map(lambda t: [["connect"], ["connect"], ["time", 0.5], ["send_ka", t[0]], ["send_ka", t[0] + 1],
                                                 ["handler", 0], ["handler", 0], ["time", 1.0]]),
     st.tuples(st.integers(0, 5)).map(lambda t: [["disconnect", t[0]], ["time", 0.5]]),
